@@ -139,6 +139,18 @@ func (e *Engine) solveAll(results []*FuncResult, timeoutS int, workers int, keep
 						v.Answer = "covered"
 					}
 				}
+				if !o.Cover && !o.Known && v.Answer != "unsat" {
+					if cm := candidateModel(tmp, base, text, 5); cm != nil {
+						// keep the readable part: parameters, named loads, results
+						v.Cand = map[string]string{}
+						for k, val := range cm {
+							if strings.HasPrefix(k, "reach_") || strings.HasPrefix(k, "e_") || strings.Contains(k, "_wm_") || strings.HasPrefix(k, "app_") || strings.HasPrefix(k, "i") && strings.Contains(k, "_reach") {
+								continue
+							}
+							v.Cand[k] = val
+						}
+					}
+				}
 				j.r.Verdicts[j.i] = v
 				if keepDir != "" && (v.Answer != "unsat" && v.Answer != "covered") {
 					os.MkdirAll(keepDir, 0o755)
